@@ -6,7 +6,6 @@ import catalog
 
 ids = [json.loads(l)['id'] for l in open('/verif/properties.jsonl')]
 NA = {
-    'C15': 'A relation between two bit-twiddling functions on a finite 528 x 528 domain; settled by exhaustive evaluation, which is running the code, not static analysis. A static rule would have to freeze the text of the bit loops.',
 }
 PROVISIONAL = 'provisional: the rule(s) for this property are not armed yet (DESIGN.md section 9 order); not claimed until they are'
 checks = []
